@@ -86,7 +86,7 @@ def run_mc(name, module, cfgfile, constants=None, extra=(), timeout=3600):
 
 def coverage(sets_meta, tv, extra):
     cov = {
-        "states": sum(m["tlc_distinct_states"] for m in sets_meta) + tv["distinct"],
+        "states": sum((m["records"] if m.get("mode") == "sim" else m["tlc_distinct_states"]) for m in sets_meta) + tv["distinct"],
         "transitions": sum(m["tlc_states_generated"] for m in sets_meta) + tv["generated"],
         "traces_validated_against_impl": tv["chunks"],
         "trace_events_validated": tv["events"],
@@ -175,7 +175,7 @@ def iter_design(tier):
 
 def cache_set(tier):
     consts = RawConsts({"ZeroTag": 0, "Sizes": "{1, 2, 4}", "NTags": 3, "MaxOps": 2 if tier == "quick" else 3, "Emit": "TRUE"})
-    return C.recordset("cache-%s" % tier, "MCCache.tla", consts, "bfs", None, timeout=3600, tag="CREC")
+    return C.recordset("cache-%s" % tier, "MCCache.tla", consts, "bfs", None, timeout=3600, tag="CREC", cfg_extra=("CONSTANT Key <- IdKey",))
 
 
 def pregen(tier, seed):
